@@ -286,3 +286,17 @@ package types
 
 //@ // ---- declared effects (checked per call instruction by the effect checker; anything not listed is effect-free) ----
 //@ effects DefaultGenesis nondet.time
+//@
+//@ // ---- C13: parameter validation, abstractly ----
+//@ // minterParamsValid(s): Params.Validate accepts the parameters with abstract deep value s (uninterpreted; its meaning is
+//@ // the assumed contract of Validate below). paramsContainSeq(s, id): some minter of s has sequence id `id`.
+//@ spec func minterParamsValid(s int) bool
+//@ spec func paramsContainSeq(s int, id int) bool
+//@ func (params Params) Validate() (err)
+//@   trusted
+//@   modifies elems(params.Minters)
+//@   ensures (err == nil) == minterParamsValid(snap(params))
+//@   ensures forall id :: {paramsContainSeq(snap(params), id)} paramsContainSeq(snap(params), id) == old(paramsContainSeq(snap(params), id))
+//@ func (params Params) ContainsMinter(sequenceId) (res)
+//@   trusted
+//@   ensures res == paramsContainSeq(snap(params), sequenceId)
